@@ -26,6 +26,8 @@
     F11c  PSBTOut.validate: WitnessScript only for p2wsh / p2sh-p2wsh ScriptPubKeys
     F11d  PSBTIn.validate: witness UTXO = output of the non-witness UTXO when both are present
     F11f  PSBTIn.validate: no witness UTXO for a p2sh input with a non-witness RedeemScript
+    F11g  PSBTIn.validate: a WitnessScript without witness UTXO is checked against a p2wsh ScriptPubKey;
+          a RedeemScript needs a p2sh ScriptPubKey in the witness branch too
   A Python exception / refusal is `none`.
 -/
 import Buidl.Model.Script
@@ -543,6 +545,10 @@ def validateIn {Tx} (H : Hashes) (C : TxCodec Tx) (txin : TxInV) (p : PIn Tx) : 
     match p.redeem with
     | some r => req (!(isP2sh spk && !isWitnessProgram r))
     | none => pure ()
+    -- F11g: a RedeemScript only next to a p2sh ScriptPubKey
+    match p.redeem with
+    | some _ => req (isP2sh spk)
+    | none => pure ()
     match p.witnessScript with
     | some ws =>
       req (isP2wsh spk || (match p.redeem with | some r => isP2wsh r | none => false))
@@ -566,6 +572,14 @@ def validateIn {Tx} (H : Hashes) (C : TxCodec Tx) (txin : TxInV) (p : PIn Tx) : 
       | none =>
         if isP2wpkh spk then singleKeyOK H p.namedPubs spk.cmds[1]? else pure ()
   | none =>
+    -- F11g: a WitnessScript without witness UTXO must be the one a p2wsh ScriptPubKey commits to
+    match p.witnessScript with
+    | some ws =>
+      let spk' ← spk
+      req (isP2wsh spk')
+      let wh ← scriptSha256 H ws
+      req (spk'.cmds[1]? == some wh)
+    | none => pure ()
     match p.redeem with
     | some r =>
       let spk ← spk
